@@ -3,7 +3,7 @@ from . import domain as D
 from .domain import Lin
 from .values import BOT, Arr, Bot, BoxU, Delta, Enum, Fn, FnPtr, Iter, Opaque, Ref, Scalar, Seq, Struct, Val, val_syms
 
-MAX_FACTS = 96
+MAX_FACTS = 600
 
 
 class SymTab:
@@ -168,7 +168,7 @@ class State:
                     if h2 is not None and h2[1] <= 0:
                         return True
         n = len(cands)
-        if n <= 14:
+        if n <= 22:
             for i in range(n):
                 gi = g.sub(cands[i])
                 for j in range(i + 1, n):
